@@ -79,8 +79,9 @@ def reach_analysis(sizes, base=0):
     Reach / Servable on the result (python mirrors Thunks.tla's definitions on real numbers)."""
     objs, pos = [], base
     for sz in sizes:
-        objs.append([pos, pos + sz])
-        pos += sz
+        if sz > 0:           # objects without primary text are filtered out by the caller of the function
+            objs.append([pos, pos + sz])
+            pos += sz
     (res,) = run_conf("thunks", [{"objects": objs, "range": R_REAL}])
     final = res["final"]
     owner_end = {}
@@ -145,6 +146,13 @@ def scenario_sources(name):
                   "site_start_caller:\n    bl caller\n    mov x8, #93\n    mov x0, #0\n    svc #0\n")
         return ([("s0", far, 4), ("s1", pad(130 * MIB), 130 * MIB), ("s2", caller, 4), ("s3", start2, 16)],
                 [("site_start_caller", "caller"), ("site_caller_far", "far")])
+    if name == "non-primary-caller":
+        # the caller sits in an over-aligned section (a non-primary part, placed before the primary
+        # text): its far call must be served by the FIRST block
+        caller = ('    .section .text.al64,"ax",%progbits\n    .p2align 6\n    .globl caller\n'
+                  "    .type caller, %function\ncaller:\nsite_caller_far:\n    bl far\n    ret\n")
+        return ([("s0", start, 16), ("s1", caller, 0), ("s2", pad(130 * MIB), 130 * MIB), ("s3", far, 4)],
+                [("site_start_caller", "caller"), ("site_caller_far", "far")])
     if name == "large-object-after-caller":
         # the shape of TLC's ReachServable counterexample at real scale: the caller's object (126 MiB)
         # opens a pending block, the next object (10 MiB > slack) places it 136 MiB from the caller
@@ -168,8 +176,8 @@ def run_scenario(ctx, name, cov, report):
             p.write_text(text)
             objs.append(asm.assemble(p, arch="aarch64"))
         args = ["-m", "aarch64linux"] + [o.name for o in objs] + ["--no-gc-sections", "-o"]
-        rw = run_wild(args + ["out.wild"], cwd=d, timeout=300)
-        rl = asm.lld(args + ["out.lld"], cwd=d, timeout=300)
+        rw = run_wild(args + ["out.wild"], cwd=d, timeout=900)
+        rl = asm.lld(args + ["out.lld"], cwd=d, timeout=900)
         for o in objs:                       # large scratch: delete at once
             o.unlink()
         info["wild"] = {"rc": rw.rc, "timed_out": rw.timed_out, "err": rw.err.strip()[-400:]}
@@ -252,7 +260,7 @@ def run(ctx):
     build_wild()
     names = ["far-call-forward", "large-object-after-caller"]
     if not ctx.quick:
-        names.insert(1, "far-call-backward")
+        names[1:1] = ["far-call-backward", "non-primary-caller"]
     for n in names:
         info = run_scenario(ctx, n, cov, report)
         log(f"C11: scenario {n}: wild rc={info['wild']['rc']} blocks={info['num_blocks']}")
